@@ -198,7 +198,7 @@ def _persist_jobs(tier, mons, crash):
             cfg["dev"] = 1 if tier == "quick" else 2
         jobs.append(job(s, cfg, mons))
         jobs.append(job(s, dict(crash=crash, horizon=60, rerun=1, rerun_mode="tasks", dev=cfg["dev"]), mons))
-    for s in gen.f4_all(tier) + gen.f5_all(tier):
+    for s in gen.f4_all(tier) + gen.f5_all(tier) + gen.f6_publish(tier):
         cfg = dict(crash=crash, horizon=60, pause=1, resume=1, cancel=1, dev=2 if tier == "quick" else 3)
         jobs.append(job(s, cfg, mons))
         jobs.append(job(s, dict(crash=crash, horizon=60, rerun=1, rerun_mode="tasks",
